@@ -125,12 +125,12 @@ static void forEachWire(const vector<string>& args, size_t maxBlanks, const std:
     if (k == ei.size()) break;
   }
 }
-static void standardDeliveries(bool http, const vector<string>& lines, const vector<string>& want, bool lfWholeDone);
+static void standardDeliveries(bool http, const vector<string>& lines, const vector<string>& want, int baseVerdict);
 static void runSplitVector(const vector<string>& args, size_t maxBlanks) {
   forEachWire(args, maxBlanks, [&](const string& wire, const string& key) {
     R.evaluations++; R.tracesValidated++;
     string cls = checkSplit(args, wire, false);
-    if (g_delivery) standardDeliveries(false, {wire.substr(0, wire.size() - 1)}, args, true);
+    if (g_delivery) standardDeliveries(false, {wire.substr(0, wire.size() - 1)}, args, cls.empty() ? 1 : 0);
     if (!cls.empty()) {
       string cs = "k=split;n=" + std::to_string(args.size());
       for (size_t i = 0; i < args.size(); i++) cs += ";a" + std::to_string(i) + "=" + toHex(args[i]);
@@ -197,7 +197,21 @@ static void deliveryCase(bool http, const string& stream, const vector<size_t>& 
 }
 // the delivery variants applied to EVERY request of the universes a and b: whole with the other line end
 // style, and cut between CR and LF of each line end
-static void standardDeliveries(bool http, const vector<string>& lines, const vector<string>& want, bool lfWholeDone) {
+// A request that is already parsed wrongly when it arrives whole with LF line ends is reported once for that
+// delivery only (its other deliveries would repeat the same defect under further signatures).
+static bool baseDeliveryOk(bool http, const vector<string>& lines, const vector<string>& want, bool report) {
+  string stream;
+  for (auto& l : lines) stream += l + "\n";
+  if (judgeDelivery(http, stream, {}, want, false).empty()) return true;
+  if (report) deliveryCase(http, stream, {}, want, "lf", nullptr);
+  return false;
+}
+// baseVerdict: 1 = the LF/whole delivery was already judged fine by the caller, 0 = judged bad by the caller
+// (and reported there), -1 = not judged yet
+static void standardDeliveries(bool http, const vector<string>& lines, const vector<string>& want, int baseVerdict) {
+  if (baseVerdict == 0) return;
+  bool lfWholeDone = true;
+  if (baseVerdict < 0) { R.evaluations++; R.tracesValidated++; if (!baseDeliveryOk(http, lines, want, true)) return; }
   for (const char* eol : {"\n", "\r\n"}) {
     string stream;
     vector<size_t> ends;
@@ -213,6 +227,7 @@ static void standardDeliveries(bool http, const vector<string>& lines, const vec
 }
 // the sub-universe: every cut into <=3 pieces, and byte by byte, both line end styles
 static void allDeliveries(bool http, const vector<string>& lines, const vector<string>& want) {
+  if (!baseDeliveryOk(http, lines, want, false)) return;  // reported by the universes a / b
   for (const char* eol : {"\n", "\r\n"}) {
     string stream;
     for (auto& l : lines) stream += l + eol;
@@ -348,7 +363,7 @@ static void httpCase(const string& uri, const char* kind) {
   R.evaluations++; R.tracesValidated++;
   if (g_delivery) {
     vector<string> want = httpWant(uri);
-    if (!want.empty()) standardDeliveries(true, {"GET " + uri + " HTTP/1.1", "Host: x", ""}, want, false);
+    if (!want.empty()) standardDeliveries(true, {"GET " + uri + " HTTP/1.1", "Host: x", ""}, want, -1);
   }
   string rule = checkHttp(uri, false);
   if (!rule.empty()) R.violation("C18/http/" + rule, string("GET <") + esc(uri) + ">", string("k=") + kind + ";uri=" + toHex(uri));
@@ -556,10 +571,9 @@ int main(int argc, char** argv) {
       };
       rec();
     }
-    // the receive buffer: lines / header blocks whose length puts every byte of the line end at a 255 byte
-    // boundary (first, second and third buffer), delivered in 255 byte pieces
-    for (size_t len = 240; len <= 780 && !R.expired(); len++) {
-      if (!((len >= 248 && len <= 262) || (len >= 503 && len <= 517) || (len >= 758 && len <= 772))) continue;
+    // the receive buffer: lines / header blocks of every length from 200 to 800 characters (so that every byte
+    // of every line end falls on the first, second and third 255 byte boundary), delivered in 255 byte pieces
+    for (size_t len = 200; len <= 800 && !R.expired(); len++) {
       if ((idx++ % A.nparts) != static_cast<uint64_t>(A.part)) continue;
       for (const char* eol : {"\n", "\r\n"}) {
         const char* en = eol[0] == '\r' ? "crlf" : "lf";
@@ -583,11 +597,7 @@ int main(int argc, char** argv) {
           string uri2 = "/x?q=1";
           string hdr = "X-Fill: " + string(len > 60 ? len - 60 : 1, 'a');
           string stream2 = "GET " + uri2 + " HTTP/1.1" + eol + hdr + eol + eol;
-          for (size_t pad = 0; pad < 4; pad++) {
-            string st = "GET " + uri2 + " HTTP/1.1" + eol + hdr + string(pad, 'b') + eol + eol;
-            if (st.size() % 255 > 4 && st.size() % 255 < 251) continue;  // only blocks ending near a boundary
-            deliveryCase(true, st, bufferCuts(st.size(), 255), {"GET", "/x", "q=1"}, en, "buf255");
-          }
+          deliveryCase(true, stream2, bufferCuts(stream2.size(), 255), {"GET", "/x", "q=1"}, en, "buf255");
         }
       }
     }
